@@ -1,10 +1,10 @@
 (* PrintableSpec.v — a second symbolic execution of the parser model: what it returns is
-   reparsable (spec/Reparsable.v) and, provided every float literal has a repr that parses back,
-   printable (spec/Printable.v).  Errors are irrelevant here; the stream invariant is only that
+   reparsable (spec/Reparsable.v), printable (spec/Printable.v) and float-stable
+   (spec/NormDomain.v); the float conditions come from FloatDomain.parsed_float_ok.  Errors are irrelevant here; the stream invariant is only that
    every token has the lexer's shape (LexShapes.tok_ok2). *)
 From Coq Require Import ZArith List Bool Lia.
-From JP Require Import Base Json PyStr PyJsonStr Syntax Lex Parse Serialize TokPrint Printable Gate Reparsable.
-From JP Require Import ParseEqns GateLemmas ParseSpec ReparseLemmas LexShapes PrintParseBase.
+From JP Require Import Base Json PyStr PyJsonStr Syntax Lex Parse Serialize TokPrint Printable Gate Reparsable NormDomain.
+From JP Require Import ParseEqns GateLemmas ParseSpec ReparseLemmas LexShapes PrintParseBase FloatDomain.
 Import ListNotations.
 
 Definition isinfix (e : fexpr) : bool := match e with FInfix _ _ _ => true | _ => false end.
@@ -97,53 +97,59 @@ Section PSpec.
 
   (* ---- what is tracked ---- *)
 
-  Definition RE (e : fexpr) : Prop := rp_expr E e = true /\ (fl_expr e = true -> pr_expr re_ok e = true).
-  Definition RS (s : selector) : Prop := rp_sel E s = true /\ (fl_sel s = true -> pr_sel re_ok s = true).
-  Definition RG (g : segment) : Prop := rp_seg E g = true /\ (fl_seg g = true -> pr_seg re_ok g = true).
-  Definition LIT (e : fexpr) : Prop := is_lit e = true /\ (fl_expr e = true -> pr_expr re_ok e = true).
+  Notation st_expr := NormDomain.fl_expr.
+  Notation st_exprs := NormDomain.fl_exprs.
+  Notation st_sel := NormDomain.fl_sel.
+  Notation st_sels := NormDomain.fl_sels.
+  Notation st_seg := NormDomain.fl_seg.
+  Notation st_segs := NormDomain.fl_segs.
+
+  Definition RE (e : fexpr) : Prop := rp_expr E e = true /\ pr_expr re_ok e = true /\ st_expr e = true.
+  Definition RS (s : selector) : Prop := rp_sel E s = true /\ pr_sel re_ok s = true /\ st_sel s = true.
+  Definition RG (g : segment) : Prop := rp_seg E g = true /\ pr_seg re_ok g = true /\ st_seg g = true.
+  Definition LIT (e : fexpr) : Prop := is_lit e = true /\ pr_expr re_ok e = true /\ st_expr e = true.
   Definition AR (e : fexpr) : Prop := (arg_form e = true \/ isinfix e = true) /\ RE e.
 
+  Ltac r3 := (split; [reflexivity|split; reflexivity]).
+
   Lemma RSs_of l : Forall RS l ->
-    rp_sels E (sels_of l) = true /\ (fl_sels (sels_of l) = true -> pr_sels re_ok (sels_of l) = true).
+    rp_sels E (sels_of l) = true /\ pr_sels re_ok (sels_of l) = true /\ st_sels (sels_of l) = true.
   Proof.
-    intros H. induction H as [|s l [Hr Hp] _ [IHr IHp]]; [split; reflexivity|].
+    intros H. induction H as [|s l (Hr & Hp & Hs) _ (IHr & IHp & IHs)]; [r3|].
     cbn [sels_of]. change (rp_sels E (LCons s (sels_of l))) with (rp_sel E s && rp_sels E (sels_of l)).
-    change (fl_sels (LCons s (sels_of l))) with (fl_sel s && fl_sels (sels_of l)).
+    change (st_sels (LCons s (sels_of l))) with (st_sel s && st_sels (sels_of l)).
     change (pr_sels re_ok (LCons s (sels_of l))) with (pr_sel re_ok s && pr_sels re_ok (sels_of l)).
-    rewrite Hr, IHr. split; [reflexivity|]. intros Hf. apply andb_true_iff in Hf as [Hf1 Hf2].
-    rewrite (Hp Hf1), (IHp Hf2). reflexivity.
+    rewrite Hr, IHr, Hp, IHp, Hs, IHs. r3.
   Qed.
 
   Lemma RGs_of l : Forall RG l ->
-    rp_segs E (segs_of l) = true /\ (fl_segs (segs_of l) = true -> pr_segs re_ok (segs_of l) = true).
+    rp_segs E (segs_of l) = true /\ pr_segs re_ok (segs_of l) = true /\ st_segs (segs_of l) = true.
   Proof.
-    intros H. induction H as [|g l [Hr Hp] _ [IHr IHp]]; [split; reflexivity|].
+    intros H. induction H as [|g l (Hr & Hp & Hs) _ (IHr & IHp & IHs)]; [r3|].
     cbn [segs_of]. change (rp_segs E (PCons g (segs_of l))) with (rp_seg E g && rp_segs E (segs_of l)).
-    change (fl_segs (PCons g (segs_of l))) with (fl_seg g && fl_segs (segs_of l)).
+    change (st_segs (PCons g (segs_of l))) with (st_seg g && st_segs (segs_of l)).
     change (pr_segs re_ok (PCons g (segs_of l))) with (pr_seg re_ok g && pr_segs re_ok (segs_of l)).
-    rewrite Hr, IHr. split; [reflexivity|]. intros Hf. apply andb_true_iff in Hf as [Hf1 Hf2].
-    rewrite (Hp Hf1), (IHp Hf2). reflexivity.
+    rewrite Hr, IHr, Hp, IHp, Hs, IHs. r3.
   Qed.
 
   Lemma LITs_of l : Forall LIT l ->
-    fl_exprs (fexprs_of l) = true -> pr_lits re_ok (fexprs_of l) = true.
+    pr_lits re_ok (fexprs_of l) = true /\ st_exprs (fexprs_of l) = true.
   Proof.
-    intros H. induction H as [|e l [Hl Hp] _ IH]; [reflexivity|].
-    cbn [fexprs_of]. change (fl_exprs (ECons e (fexprs_of l))) with (fl_expr e && fl_exprs (fexprs_of l)).
+    intros H. induction H as [|e l (Hl & Hp & Hs) _ (IHp & IHs)]; [split; reflexivity|].
+    cbn [fexprs_of]. change (st_exprs (ECons e (fexprs_of l))) with (st_expr e && st_exprs (fexprs_of l)).
     change (pr_lits re_ok (ECons e (fexprs_of l))) with (is_lit e && pr_expr re_ok e && pr_lits re_ok (fexprs_of l)).
-    intros Hf. apply andb_true_iff in Hf as [Hf1 Hf2]. rewrite Hl, (Hp Hf1), (IH Hf2). reflexivity.
+    rewrite Hl, Hp, IHp, Hs, IHs. split; reflexivity.
   Qed.
 
   Lemma ARs_of l : Forall (fun e => arg_form e = true /\ RE e) l ->
-    rp_args E (fexprs_of l) = true /\ (fl_exprs (fexprs_of l) = true -> pr_exprs re_ok (fexprs_of l) = true).
+    rp_args E (fexprs_of l) = true /\ pr_exprs re_ok (fexprs_of l) = true /\ st_exprs (fexprs_of l) = true.
   Proof.
-    intros H. induction H as [|e l [Ha [Hr Hp]] _ [IHr IHp]]; [split; reflexivity|].
+    intros H. induction H as [|e l (Ha & Hr & Hp & Hs) _ (IHr & IHp & IHs)]; [r3|].
     cbn [fexprs_of].
     change (rp_args E (ECons e (fexprs_of l))) with (arg_form e && rp_expr E e && rp_args E (fexprs_of l)).
-    change (fl_exprs (ECons e (fexprs_of l))) with (fl_expr e && fl_exprs (fexprs_of l)).
+    change (st_exprs (ECons e (fexprs_of l))) with (st_expr e && st_exprs (fexprs_of l)).
     change (pr_exprs re_ok (ECons e (fexprs_of l))) with (pr_expr re_ok e && pr_exprs re_ok (fexprs_of l)).
-    rewrite Ha, Hr, IHr. split; [reflexivity|]. intros Hf. apply andb_true_iff in Hf as [Hf1 Hf2].
-    rewrite (Hp Hf1), (IHp Hf2). reflexivity.
+    rewrite Ha, Hr, IHr, Hp, IHp, Hs, IHs. r3.
   Qed.
 
   Lemma Forall_rev' {A} (P : A -> Prop) l : Forall P l -> Forall P (rev l).
@@ -152,7 +158,8 @@ Section PSpec.
   Lemma float_lit t e : parse_float_literal t = Ok e -> LIT e /\ RE e /\ arg_form e = true.
   Proof.
     intros H. destruct (parse_float_literal_float t e H) as [n ->].
-    repeat split; try reflexivity; intros Hf; exact Hf.
+    destruct (parsed_float_ok t n H) as [Hok Hst].
+    repeat split; try reflexivity; assumption.
   Qed.
 
   Lemma int_lit s e : parse_int_literal s = Ok e -> LIT e /\ RE e /\ arg_form e = true.
@@ -171,7 +178,7 @@ Section PSpec.
     apply post_any. intros a. apply post_any. intros b. apply post_any. intros c.
     match goal with |- context [if ?x then _ else _] => destruct x end; [|exact I].
     cbn [post fst snd]. split; [|split; [reflexivity|exact Hs2]].
-    split; [|reflexivity]. cbn [rp_sel]. destruct c; [reflexivity|exact H1].
+    split; [cbn [rp_sel]; destruct c; [reflexivity|exact H1]|split; reflexivity].
   Qed.
 
   Lemma parse_list_items_post f : forall st acc,
@@ -182,9 +189,9 @@ Section PSpec.
     rewrite parse_list_items_S.
     destruct (is_kind TRBracket (s_cur st)); [split; [apply Forall_rev'; exact Hacc|exact Hs]|].
     eapply post_bind with (Q := LIT).
-    { destruct (tk (s_cur st)); try exact I; try (split; reflexivity).
-      - apply post_any. intros s. split; reflexivity.
-      - apply post_any. intros s. split; reflexivity.
+    { destruct (tk (s_cur st)); try exact I; try r3.
+      - apply post_any. intros s. r3.
+      - apply post_any. intros s. r3.
       - destruct (parse_float_literal _) as [e|] eqn:H; [|exact I]. exact (proj1 (float_lit _ _ H)).
       - destruct (parse_int_literal _) as [e|] eqn:H; [|exact I]. exact (proj1 (int_lit _ _ H)). }
     intros item Hitem.
@@ -226,9 +233,8 @@ Section PSpec.
 
   Lemma RG_bare s : bare_form s = true -> RS s -> RG (GSel s).
   Proof.
-    intros Hb [Hr Hp]. split.
-    - change (rp_seg E (GSel s)) with (bare_form s && rp_sel E s). rewrite Hb, Hr. reflexivity.
-    - exact Hp.
+    intros Hb (Hr & Hp & Hs). split; [|split; [exact Hp|exact Hs]].
+    change (rp_seg E (GSel s)) with (bare_form s && rp_sel E s). rewrite Hb, Hr. reflexivity.
   Qed.
 
   Lemma path_step f : SP_path f -> SP_sellist f -> SP_path (S f).
@@ -238,13 +244,13 @@ Section PSpec.
                          (fun r => Forall RG (fst r) /\ sall (snd r))).
     { split; [apply Forall_rev'; exact Hacc|]. destruct in_filter; [apply push_sall|]; exact Hs. }
     destruct (tk (s_cur st)); try exact Hexit.
-    - apply continue_post; auto. apply RG_bare; [reflexivity|split; reflexivity].
+    - apply continue_post; auto. apply RG_bare; [reflexivity|r3].
     - bstep (parse_slice_post st Hs). intros r (Hrs & Hb & Hs1).
       apply continue_post; auto. apply RG_bare; assumption.
-    - apply continue_post; auto. apply RG_bare; [reflexivity|split; reflexivity].
-    - apply continue_post; auto. apply RG_bare; [reflexivity|split; reflexivity].
-    - apply continue_post; auto. split; reflexivity.
-    - apply continue_post; auto. apply RG_bare; [reflexivity|split; reflexivity].
+    - apply continue_post; auto. apply RG_bare; [reflexivity|r3].
+    - apply continue_post; auto. apply RG_bare; [reflexivity|r3].
+    - apply continue_post; auto. r3.
+    - apply continue_post; auto. apply RG_bare; [reflexivity|r3].
     - bstep (IHs st Hs). intros r [Hl Hs1]. apply continue_post; auto.
       exact (RSs_of (fst r) Hl).
   Qed.
@@ -253,12 +259,12 @@ Section PSpec.
     SP_filter f -> sall st -> post (sel_item E re_ok f st) (fun r => RS (fst r) /\ sall (snd r)).
   Proof.
     intros IHf Hs. unfold sel_item.
-    destruct (tk (s_cur st)); try exact I; try (split; [split; reflexivity|exact Hs]).
-    - destruct (existsb _ _); [exact I|]. apply post_any. intros s. split; [split; reflexivity|exact Hs].
-    - destruct (existsb _ _); [exact I|]. apply post_any. intros s. split; [split; reflexivity|exact Hs].
+    destruct (tk (s_cur st)); try exact I; try (split; [r3|exact Hs]).
+    - destruct (existsb _ _); [exact I|]. apply post_any. intros s. split; [r3|exact Hs].
+    - destruct (existsb _ _); [exact I|]. apply post_any. intros s. split; [r3|exact Hs].
     - eapply post_weaken; [exact (parse_slice_post st Hs)|]. intros r (H & _ & H'). split; assumption.
     - cbv zeta. destruct (_ || _); [exact I|]. destruct (has_exponent _); [exact I|].
-      apply post_any. intros z. destruct (index_in_range E z); [|exact I]. split; [split; reflexivity|exact Hs].
+      apply post_any. intros z. destruct (index_in_range E z); [|exact I]. split; [r3|exact Hs].
     - destruct f as [|f']; [exact I|]. bstep (IHf st Hs). intros r [Hre Hs1].
       split; [exact Hre|exact Hs1].
   Qed.
@@ -314,11 +320,10 @@ Section PSpec.
 
   Lemma RE_infix l o r : RE l -> RE r -> RE (FInfix l o r).
   Proof.
-    intros [Hrl Hpl] [Hrr Hpr]. split.
-    - change (rp_expr E (FInfix l o r)) with (rp_expr E l && rp_expr E r). rewrite Hrl, Hrr. reflexivity.
-    - change (fl_expr (FInfix l o r)) with (fl_expr l && fl_expr r).
-      change (pr_expr re_ok (FInfix l o r)) with (pr_expr re_ok l && pr_expr re_ok r).
-      intros Hf. apply andb_true_iff in Hf as [Hf1 Hf2]. rewrite (Hpl Hf1), (Hpr Hf2). reflexivity.
+    intros (Hrl & Hpl & Hsl) (Hrr & Hpr & Hsr).
+    change (RE (FInfix l o r)) with
+      (rp_expr E l && rp_expr E r = true /\ pr_expr re_ok l && pr_expr re_ok r = true /\ st_expr l && st_expr r = true).
+    rewrite Hrl, Hrr, Hpl, Hpr, Hsl, Hsr. r3.
   Qed.
 
   Lemma infix_step f : SP_fs f -> SP_infix (S f).
@@ -333,14 +338,14 @@ Section PSpec.
 
   Lemma sub_path_post f st (mk : segs -> fexpr) :
     SP_path f -> sall st ->
-    (forall p, rp_expr E (mk p) = rp_segs E p /\ fl_expr (mk p) = fl_segs p /\
+    (forall p, rp_expr E (mk p) = rp_segs E p /\ st_expr (mk p) = st_segs p /\
                pr_expr re_ok (mk p) = pr_segs re_ok p /\ arg_form (mk p) = true) ->
     post (sub_path E re_ok f st mk) (fun r => Qe r /\ arg_form (fst r) = true).
   Proof.
     intros IH Hs Hmk. unfold sub_path. bstep (next_token_post st Hs). intros r0 [_ Hs1].
     bstep (IH true (snd r0) [] Hs1 (Forall_nil _)). intros r [Hl Hs2].
-    destruct (Hmk (segs_of (fst r))) as (E1 & E2 & E3 & E4). destruct (RGs_of (fst r) Hl) as [Hr Hp].
-    split; [split; [|exact Hs2]|exact E4]. cbn [fst]. split; [rewrite E1; exact Hr|rewrite E2, E3; exact Hp].
+    destruct (Hmk (segs_of (fst r))) as (E1 & E2 & E3 & E4). destruct (RGs_of (fst r) Hl) as (Hr & Hp & Hst).
+    split; [split; [|exact Hs2]|exact E4]. cbn [fst]. split; [rewrite E1; exact Hr|split; [rewrite E3; exact Hp|rewrite E2; exact Hst]].
   Qed.
 
   Lemma regex_primary_post st :
@@ -350,7 +355,7 @@ Section PSpec.
     eapply post_bind with (Q := fun r : reflags * stream => sall (snd r)).
     { destruct (is_kind TReFlags nxt); [|exact Hs1]. bstep (next_token_post st1 Hs1). intros r' [_ H]. exact H. }
     intros r Hs2. destruct (re_ok (tv (s_cur st))) as [[|]|] eqn:Hre; try exact I.
-    split; [|exact Hs2]. split; [reflexivity|]. intros _. cbn [fst snd].
+    split; [|exact Hs2]. split; [reflexivity|]. split; [|reflexivity]. cbn [fst snd].
     change (pr_expr re_ok (FRegex (tv (s_cur st)) (fst r)))
       with (regex_ok (tv (s_cur st)) && match re_ok (tv (s_cur st)) with Some true => true | _ => false end).
     rewrite Hre. pose proof (proj1 Hs) as Ht. unfold tok_ok2 in Ht. rewrite Hk in Ht. rewrite Ht. reflexivity.
@@ -377,11 +382,10 @@ Section PSpec.
         pose proof (Forall_rev' _ _ Hacc) as Hr. rewrite Forall_forall in Hr. destruct (Hr e He) as [[Ha|Hi] Hre].
         - split; assumption.
         - rewrite Hi in Hni. discriminate Hni. }
-      destruct (ARs_of _ Hall) as [Hr Hp].
-      split; [split; [|exact Hs]|reflexivity]. cbn [fst snd]. split; [exact Hr|].
-      change (fl_expr (FFunc name (fexprs_of (rev acc)))) with (fl_exprs (fexprs_of (rev acc))).
+      destruct (ARs_of _ Hall) as (Hr & Hp & Hst).
+      split; [split; [|exact Hs]|reflexivity]. cbn [fst snd]. split; [exact Hr|]. split; [|exact Hst].
       change (pr_expr re_ok (FFunc name (fexprs_of (rev acc)))) with (fname_ok name && pr_exprs re_ok (fexprs_of (rev acc))).
-      intros Hf. rewrite Hn, (Hp Hf). reflexivity.
+      rewrite Hn, Hp. reflexivity.
     - destruct (fn_sig name); exact I.
   Qed.
 
@@ -428,7 +432,7 @@ Section PSpec.
               post (Ok (e, st)) (fun r => Qe r /\ (arg_kindb (tk (s_cur st)) = true -> arg_form (fst r) = true))).
     { intros e He Hk. split; [split; assumption|]. rewrite Hk. intros H. discriminate H. }
     assert (Hsub : forall mk,
-              (forall p, rp_expr E (mk p) = rp_segs E p /\ fl_expr (mk p) = fl_segs p /\
+              (forall p, rp_expr E (mk p) = rp_segs E p /\ st_expr (mk p) = st_segs p /\
                          pr_expr re_ok (mk p) = pr_segs re_ok p /\ arg_form (mk p) = true) ->
               post (sub_path E re_ok f st mk)
                    (fun r => Qe r /\ (arg_kindb (tk (s_cur st)) = true -> arg_form (fst r) = true))).
@@ -438,10 +442,10 @@ Section PSpec.
     - apply Hsub. intros p. repeat split.
     - apply Hsub. intros p. repeat split.
     - apply Hsub. intros p. repeat split.
-    - apply Hlit; [split; reflexivity|reflexivity].
+    - apply Hlit; [r3|reflexivity].
     - apply Hsub. intros p. repeat split.
-    - apply post_any. intros s. apply Hlit; [split; reflexivity|reflexivity].
-    - apply post_any. intros s. apply Hlit; [split; reflexivity|reflexivity].
+    - apply post_any. intros s. apply Hlit; [r3|reflexivity].
+    - apply post_any. intros s. apply Hlit; [r3|reflexivity].
     - eapply post_weaken; [exact (regex_primary_post st Hs Hk)|]. intros r Hq. split; [exact Hq|intros H; discriminate H].
     - (* TFunction *)
       bstep (next_token_post st Hs). intros r0 [_ Hs1].
@@ -453,16 +457,16 @@ Section PSpec.
       destruct (float_lit _ _ H) as (_ & Hre & Ha). apply Hlit; assumption.
     - destruct (parse_int_literal _) as [e|] eqn:H; [|exact I]. cbn [bind].
       destruct (int_lit _ _ H) as (_ & Hre & Ha). apply Hlit; assumption.
-    - apply Hlit; [split; reflexivity|reflexivity].
-    - apply Hlit; [split; reflexivity|reflexivity].
-    - apply Hlit; [split; reflexivity|reflexivity].
-    - apply Hlit'; [split; reflexivity|reflexivity].
-    - apply Hlit'; [split; reflexivity|reflexivity].
+    - apply Hlit; [r3|reflexivity].
+    - apply Hlit; [r3|reflexivity].
+    - apply Hlit; [r3|reflexivity].
+    - apply Hlit'; [r3|reflexivity].
+    - apply Hlit'; [r3|reflexivity].
     - (* list literal *)
       bstep (next_token_post st Hs). intros r0 [_ Hs1].
       bstep (parse_list_items_post f (snd r0) [] Hs1 (Forall_nil _)). intros r [Hl Hs2].
-      split; [|intros H; discriminate H]. split; [|exact Hs2]. split; [reflexivity|].
-      exact (LITs_of (fst r) Hl).
+      split; [|intros H; discriminate H]. split; [|exact Hs2]. destruct (LITs_of (fst r) Hl) as [Hpl Hsl].
+      split; [reflexivity|split; [exact Hpl|exact Hsl]].
     - (* ! *)
       bstep (next_token_post st Hs). intros r0 [_ Hs1].
       bstep (IHfs (snd r0) 7 Hs1). intros r [Hre Hs2]. apply post_any. intros _.
@@ -494,7 +498,7 @@ Section PSpec.
   (* ---- paths, compound queries ---- *)
 
   Definition RP (p : jpath) : Prop :=
-    rp_segs E (p_segs p) = true /\ (fl_segs (p_segs p) = true -> pr_segs re_ok (p_segs p) = true).
+    rp_segs E (p_segs p) = true /\ pr_segs re_ok (p_segs p) = true /\ st_segs (p_segs p) = true.
 
   Lemma parse_one_post fuel st :
     sall st -> post (parse_one E re_ok fuel st) (fun r => RP (fst r) /\ sall (snd r)).
@@ -527,18 +531,16 @@ Section PSpec.
   Lemma compile_tokens_post toks :
     Forall tok_ok2 toks ->
     post (compile_tokens E re_ok toks)
-         (fun q => reparsable E q = true /\ (floats_ok q = true -> printable re_ok q = true)).
+         (fun q => reparsable E q = true /\ printable re_ok q = true /\ floats_stable q = true).
   Proof.
     intros Htoks. unfold compile_tokens. cbv zeta. unfold init_stream.
     assert (Hinit : sall (mkStream (mkTok TIllegal []) [] toks)) by (repeat split; [constructor|exact Htoks]).
     bstep (advance_post _ Hinit). intros st Hs.
-    eapply post_bind; [apply parse_one_post; exact Hs|]. cbv beta. intros p [[Hr Hp] Hs1].
+    eapply post_bind; [apply parse_one_post; exact Hs|]. cbv beta. intros p [(Hr & Hp & Hst) Hs1].
     eapply post_bind; [apply compile_rest_post; [exact Hs1|apply Forall_nil]|]. cbv beta. intros rest Hrest.
-    cbn [post]. unfold reparsable, floats_ok, printable. cbn [q_first q_rest].
-    assert (Hr2 : forallb (fun op => rp_segs E (p_segs (snd op))) rest = true).
-    { apply forallb_forall. intros op Hin. rewrite Forall_forall in Hrest. exact (proj1 (Hrest op Hin)). }
-    rewrite Hr, Hr2. split; [reflexivity|]. intros Hf. apply andb_true_iff in Hf as [Hf1 Hf2].
-    rewrite (Hp Hf1). cbn [andb]. apply forallb_forall. intros op Hin.
-    rewrite Forall_forall in Hrest. rewrite forallb_forall in Hf2. exact (proj2 (Hrest op Hin) (Hf2 op Hin)).
+    cbn [post]. unfold reparsable, floats_stable, printable. cbn [q_first q_rest].
+    rewrite Forall_forall in Hrest.
+    rewrite Hr, Hp, Hst. cbn [andb].
+    repeat split; apply forallb_forall; intros op Hin; destruct (Hrest op Hin) as (H1' & H2' & H3'); assumption.
   Qed.
 End PSpec.
